@@ -209,13 +209,23 @@ func root(m *harness.PropMeta, units []harness.Unit) int {
 	for i := range order {
 		order[i] = i
 	}
-	sort.SliceStable(order, func(a, b int) bool { return units[order[a]].Weight > units[order[b]].Weight })
+	// quick: heaviest units first (everything is expected to finish, this minimises the wall time);
+	// thorough: lightest first - the tier runs against its wall-clock budget, and the broad cheap units must not be
+	// starved by the few deep ones, which then share whatever time is left
+	heavyFirst := *tier != "thorough"
+	less := func(wa, wb int) bool {
+		if heavyFirst {
+			return wa > wb
+		}
+		return wa < wb
+	}
+	sort.SliceStable(order, func(a, b int) bool { return less(units[order[a]].Weight, units[order[b]].Weight) })
 	if seed != 0 {
 		// the seed only rotates the start order of equally weighted units; nothing is sampled
 		sort.SliceStable(order, func(a, b int) bool {
 			wa, wb := units[order[a]].Weight, units[order[b]].Weight
 			if wa != wb {
-				return wa > wb
+				return less(wa, wb)
 			}
 			return (order[a]+seed)%len(units) < (order[b]+seed)%len(units)
 		})
@@ -227,6 +237,12 @@ func root(m *harness.PropMeta, units []harness.Unit) int {
 	}
 	defer os.RemoveAll(tmp)
 
+	// thorough tier: when a unit is started it gets a fair slice of what is left of the wall-clock budget
+	// (remaining time x workers / units not yet started, at least 20 s); a unit that uses up its slice stops where it
+	// is and says so (exhaustive:false for that unit). Units run lightest first, so the slices grow as the cheap units
+	// finish early, and the deep units cannot starve the broad ones. The quick tier has no slices.
+	sliced := *tier == "thorough" && len(units) > *jobs
+	started := 0
 	results := make([]*harness.UnitResult, len(units))
 	errs := make([]string, len(units))
 	skipped := 0
@@ -252,7 +268,21 @@ func root(m *harness.PropMeta, units []harness.Unit) int {
 			defer wg.Done()
 			defer func() { <-sem }()
 			out := filepath.Join(tmp, fmt.Sprintf("u%d.json", i))
-			cmd := exec.Command(self, "-prop", *prop, "-tier", *tier, "-unit", units[i].Name, "-out", out, "-deadline", strconv.FormatInt(dl.Unix(), 10))
+			udl := dl
+			if sliced {
+				mu.Lock()
+				left := len(units) - started
+				started++
+				mu.Unlock()
+				slice := time.Duration(float64(time.Until(dl)) * float64(*jobs) / float64(max(left, 1)))
+				if slice < 20*time.Second {
+					slice = 20 * time.Second
+				}
+				if time.Now().Add(slice).Before(dl) {
+					udl = time.Now().Add(slice)
+				}
+			}
+			cmd := exec.Command(self, "-prop", *prop, "-tier", *tier, "-unit", units[i].Name, "-out", out, "-deadline", strconv.FormatInt(udl.Unix(), 10))
 			var stderr strings.Builder
 			cmd.Stderr = &stderr
 			cmd.Stdout = &stderr
@@ -263,7 +293,7 @@ func root(m *harness.PropMeta, units []harness.Unit) int {
 				return
 			}
 			go func() { done <- cmd.Wait() }()
-			grace := time.Until(dl) + 90*time.Second
+			grace := time.Until(udl) + 90*time.Second
 			select {
 			case err := <-done:
 				b, rerr := os.ReadFile(out)
